@@ -24,7 +24,7 @@ that the Fried stencil geometry is Fried's.
 """
 import ast
 
-from ..common import get_index, nf, check_equal, same_value, purity_obligations, merged_paths
+from ..common import get_index, nf, check_equal, same_value, purity_obligations, merged_paths, canon_matrix_forms
 from ..index import norm_text
 from ..interp import Interp, Obj, has_unknown, unknown_atoms
 from ..plf import Rat, Sym, Fn, find_atoms
@@ -94,16 +94,25 @@ def run(rep, tier, root=None):
         xc, xp = o.attrs.get("X_coords"), o.attrs.get("X_positions")
         zero = Rat.const(0)
         full = ("slice", Rat.const(0), None, None)
-        want_xc = Rat.atom(Fn("setitem", (Rat.atom(Fn("setitem", (zero, (full, Rat.const(0)), Rat.const(-1)))), (full, Rat.const(1)),
-                                          Rat.atom(Fn("arange", (Rat.const(0), nx, Rat.const(1)))))))
-        alt_xc = Rat.atom(Fn("setitem", (Rat.atom(Fn("setitem", (zero, (full, Rat.const(1)), Rat.atom(Fn("arange", (Rat.const(0), nx, Rat.const(1))))))),
-                                          (full, Rat.const(0)), Rat.const(-1))))
-        okx = xc is not None and (same_value(xc, want_xc) or same_value(xc, alt_xc))
-        rep.check(okx, "K8.new-row-coordinates", "%s.set_X_coords: X at row -1, columns arange(nx_size)" % tag,
-                  "new-row coordinates are %s (expected row -1, columns 0..nx_size-1): the new row is not placed directly before row 0"
-                  % nf(xc, 200), m.where())
-        allocs = [c for c in I.call_log if c[0] == m.fq and c[1].split(".")[-1] == "zeros"]
-        rep.check(len(allocs) == 1 and same_value(allocs[0][2][0], (nx, Rat.const(2))), "K8.new-row-coordinates",
+        from ..elem import element
+        kk = Rat.sym("k", ("int", "loopvar"))
+        e0 = element(xc, (kk, Rat.const(0))) if isinstance(xc, Rat) else None
+        e1 = element(xc, (kk, Rat.const(1))) if isinstance(xc, Rat) else None
+        if xc is not None and (e0 is None or e1 is None):
+            rep.unknown("K8.new-row-coordinates", "%s.set_X_coords" % tag, "cannot read the coordinate table element-wise: %s" % nf(xc, 160), m.where())
+        else:
+            okx = xc is not None and same_value(e0, Rat.const(-1)) and same_value(e1, kk)
+            rep.check(okx, "K8.new-row-coordinates", "%s.set_X_coords: X[k] = (-1, k)" % tag,
+                      "new-row coordinates are X[k] = (%s, %s) (expected row -1, column k): the new row is not placed directly before row 0"
+                      % (nf(e0, 80), nf(e1, 80)), m.where())
+        # the table has nx_size rows: allocated so, or stacked from columns of that length
+        allocs = [c for c in I.call_log if c[0] == m.fq and c[1].split(".")[-1] in ("zeros", "empty")]
+        rows_ok = len(allocs) == 1 and same_value(allocs[0][2][0], (nx, Rat.const(2)))
+        if not allocs and isinstance(xc, Rat):
+            cs = find_atoms(xc, lambda a: isinstance(a, Fn) and a.name == "column_stack")
+            ar = find_atoms(xc, lambda a: isinstance(a, Fn) and a.name == "arange")
+            rows_ok = len(cs) == 1 and len(cs[0].args[0]) == 2 and len(ar) == 1 and same_value(ar[0].args, (Rat.const(0), nx, Rat.const(1)))
+        rep.check(rows_ok, "K8.new-row-coordinates",
                   "%s.set_X_coords: coordinate table has shape (nx_size, 2)" % tag, "allocation %s" % [nf(c[2][0]) for c in allocs], m.where())
         rep.check(xp is not None and xc is not None and same_value(xp, xc * ps), "K8.positions-scaled",
                   "%s.set_X_coords: X_positions = X_coords * pixel_scale" % tag, "X_positions = %s" % nf(xp, 160), m.where())
@@ -112,7 +121,7 @@ def run(rep, tier, root=None):
         m, I, o, paths = run_method(ix, cls, "set_stencil_coords")
         rep.functions_analysed.add(m.fq)
         sc, sp, ns, stn = (o.attrs.get(k) for k in ("stencil_coords", "stencil_positions", "n_stencils", "stencil"))
-        ok = sc is not None and stn is not None and same_value(sc, _where_T(stn))
+        ok = sc is not None and stn is not None and same_value(canon_matrix_forms(sc), canon_matrix_forms(_where_T(stn)))
         rep.check(ok, "K8.stencil-coordinates", "%s.set_stencil_coords: coords = array(where(stencil == 1)).T" % tag,
                   "stencil_coords = %s" % nf(sc, 200), m.where())
         rep.check(sp is not None and sc is not None and same_value(sp, sc * ps), "K8.positions-scaled",
@@ -124,7 +133,7 @@ def run(rep, tier, root=None):
         if cname == "PhaseScreenVonKarman":
             want_st = Rat.atom(Fn("setitem", (Rat.const(0), ("slice", Rat.const(0), A("n_columns", "int"), None), Rat.const(1))))
             al = [c for c in I.call_log if c[0] == m.fq and c[1].split(".")[-1] == "zeros"]
-            rep.check(stn is not None and same_value(stn, want_st) and len(al) == 1 and
+            rep.check(stn is not None and same_value(canon_matrix_forms(stn), want_st) and len(al) == 1 and
                       same_value(al[0][2][0], (A("stencil_length", "int"), nx)), "K11.vk-stencil",
                       "%s: stencil = first n_columns rows of a (stencil_length, nx_size) grid" % tag,
                       "stencil = %s on %s" % (nf(stn, 120), [nf(c[2][0]) for c in al]), m.where())
@@ -191,10 +200,12 @@ def run(rep, tier, root=None):
         b_ = o.attrs.get("B_mat")
         bbt = A("cov_mat_xx") - Rat.atom(Fn("dot", (A("A_mat"), A("cov_mat_zx"))))
         want = Rat.atom(Fn("dot", (Rat.atom(Fn("svd_u", (bbt,))), Rat.atom(Fn("diagmat", (Rat.atom(Fn("svd_w", (bbt,))) ** 0.5,))))))
+        b_ = canon_matrix_forms(b_) if b_ is not None else None
         rep.check(b_ is not None and same_value(b_, want), "K5.B-matrix", "%s.makeBMatrix: B = U . diag(sqrt(w)), svd(Cov_xx - A . Cov_zx)" % tag,
                   "B = %s" % nf(b_, 260), m.where(), detail={"expected": nf(want, 260)})
         al = [c for c in I.call_log if c[0] == m.fq and c[1].split(".")[-1] == "zeros"]
-        rep.check(len(al) == 1 and same_value(al[0][2][0], (nx, nx)), "K5.B-matrix", "%s.makeBMatrix: diagonal matrix is nx_size x nx_size" % tag,
+        # only where the diagonal factor is built in an allocated square array does its size need checking
+        rep.check(not al or (len(al) == 1 and same_value(al[0][2][0], (nx, nx))), "K5.B-matrix", "%s.makeBMatrix: diagonal matrix is nx_size x nx_size" % tag,
                   "diagonal factor allocated as %s" % [nf(c[2][0]) for c in al], m.where())
 
         # ---- K6/K7 row synthesis
@@ -207,7 +218,7 @@ def run(rep, tier, root=None):
         if len(paths) != 1 or not isinstance(paths[0][2], Rat):
             rep.unknown("K6.row-synthesis", "%s.get_new_row" % tag, "expected one path", m.where())
         else:
-            v = paths[0][2]
+            v = _strip_row_shape(paths[0][2], nx)
             draws = find_atoms(v, lambda a: isinstance(a, Fn) and a.name == "draw")
             okd = len(draws) == 1 and draws[0].args[1] == "normal" and same_value(draws[0].args[2], Rat.const(0)) and \
                 same_value(draws[0].args[3], Rat.const(1)) and same_value(draws[0].args[4], nx) and \
@@ -271,6 +282,16 @@ def run(rep, tier, root=None):
                        "matrices of one screen depend on screens constructed earlier in the process",
                        internal_out_params={(MOD + ":calc_seperations_fast", "seperations")})
     rep.floor("C04 obligations", len(rep.obligations), 40)
+
+
+def _strip_row_shape(v, nx):
+    """the row is returned with shape (1, nx_size): `x.shape = (1, nx)` (metadata store) and `x.reshape(1, nx)` are the same value"""
+    a = v.single_atom() if isinstance(v, Rat) else None
+    if isinstance(a, Fn) and a.name == "reshape" and isinstance(a.args[0], Rat):
+        shp = a.args[1:] if len(a.args) == 3 else (a.args[1] if len(a.args) == 2 and isinstance(a.args[1], tuple) else None)
+        if shp is not None and len(shp) == 2 and same_value(tuple(shp), (Rat.const(1), nx)):
+            return a.args[0]
+    return v
 
 
 def _where_T(stencil):
